@@ -18,7 +18,7 @@ for P in sys.argv[4:]:
             src='%s_%s/out/%d/%s'%(atkp,P,k,f)
             if os.path.isfile(src) and os.path.getsize(src)<300000: shutil.copy(src,d)
         meta=json.load(open(d+'/meta.json'))
-        meta['wave']={'':1,'b':2,'c':3,'d':4,'e':5,'f':6,'g':7}.get(suf,9)
+        meta['wave']={'':1,'b':2,'c':3,'d':4,'e':5,'f':6,'g':7,'h':8}.get(suf,9)
         meta['verif_result']='%s by ./check %s --tier quick (%d VIOLATION lines shown, %d of them no-failing-input-found; %s)'%(
             'DETECTED' if 'DETECTED' in verdict else 'MISSED',P,nv,nf,summ.group(0) if summ else '')
         meta['verif_cmd']='python3 lib/seedtest.py %s <scratch checkout at the base commit> seeded/%s/patch.diff'%(P,sid)
